@@ -226,13 +226,16 @@ theorem parseSummaryRd_facts (env : Env) (cfg : SelCfg) (st : Bytes) : Post SumF
   dsimp only
   split
   · exact post_pure _ _ _ trivial
-  apply post_bind; intro rc st5
+  apply post_bind; intro rm st5
+  obtain ⟨rc, msg⟩ := rm
   apply post_pure
   refine ⟨by simp [ox, s], ?_, ?_⟩
-  · cases rc <;> simp [objGet?_cons, kv, jstr, (by decide : s "SRC" ≠ s "PLID")]
-  · cases rc <;> simp [objGet?_cons, kv, jstr, objGet?, (by decide : s "PLID" ≠ s "SRC"), (by decide : s "CreatorID" ≠ s "SRC"),
-      (by decide : s "Subsystem" ≠ s "SRC"), (by decide : s "Commit Time" ≠ s "SRC"), (by decide : s "Sev" ≠ s "SRC"),
-      (by decide : s "CompID" ≠ s "SRC")]
+  · cases rc <;> cases msg <;>
+      simp [objGet?_cons, kv, jstr, (by decide : s "SRC" ≠ s "PLID"), (by decide : s "Message" ≠ s "PLID")]
+  · cases rc <;> cases msg <;>
+      simp [objGet?_cons, kv, jstr, objGet?, (by decide : s "PLID" ≠ s "SRC"), (by decide : s "CreatorID" ≠ s "SRC"),
+        (by decide : s "Subsystem" ≠ s "SRC"), (by decide : s "Commit Time" ≠ s "SRC"), (by decide : s "Sev" ≠ s "SRC"),
+        (by decide : s "CompID" ≠ s "SRC"), (by decide : s "Message" ≠ s "SRC")]
 
 theorem parseSummary_facts {env : Env} {cfg : SelCfg} {b : Bytes} {sm : Summary} {plid : Nat} {src : Option Text}
     (h : parseSummary env cfg b = .summary sm plid src) :
@@ -960,4 +963,393 @@ theorem srcMode_long (env : Env) (o : CliOpts) (n : Text) (excl : Option Text) (
   unfold srcMode
   simp [hl]
 
+end Pel.TieDM
+
+namespace Pel.TieDM
+variable {σ σ' α β ρ : Type}
+
+/-! ### `parsePELSummary` -/
+
+@[outm] theorem pyRdL_apply {α : Type} (r : Rd α) (get : σ → Bytes) (set : σ → Bytes → σ) (st : PySt σ) :
+    (pyRdL r get set : OutM σ α) st = match r (get st.loc) with
+      | .ok (a, b) => (.ok a, { st with loc := set st.loc b })
+      | .error _ => (.exc, st) := by
+  unfold pyRdL
+  cases r (get st.loc) <;> rfl
+
+theorem pyGetItem_apply (j : J) (k : Text) (st : PySt σ) :
+    (pyGetItem j k : OutM σ J) st = match jItem k j with
+      | some v => (.ok v, st)
+      | none => (.exc, st) := by
+  unfold pyGetItem
+  cases jItem k j <;> rfl
+
+theorem pyStrIn_apply (k : Text) (j : J) (st : PySt σ) :
+    (pyStrIn k j : OutM σ Bool) st = match jIn k j with
+      | some b => (.ok b, st)
+      | none => (.exc, st) := by
+  unfold pyStrIn
+  cases jIn k j <;> rfl
+
+theorem rd_map_apply {α β : Type} (f : α → β) (r : Rd α) (b : Bytes) :
+    (f <$> r) b = match r b with
+      | .ok p => .ok (f p.1, p.2)
+      | .error e => .error e := by
+  simp only [Functor.map, StateT.map, Except.bind, bind, Except.pure, pure]
+  cases r b <;> rfl
+
+theorem namedBy_apply (T : Tables) (h : SecHdr) (rd : Rd J) (b : Bytes) :
+    namedBy T h rd b = match rd b with
+      | .ok p => .ok ((sectionName T h.id, p.1), p.2)
+      | .error e => .error e := by
+  unfold namedBy
+  rw [rd_bind_apply]
+  cases rd b <;> rfl
+
+theorem secHdr_eta (h : SecHdr) : SecHdr.mk h.id h.len h.ver h.sub h.comp = h := rfl
+
+theorem objGet?_append' (a b : List (Text × J)) (k : Text) :
+    objGet? (a ++ b) k = match objGet? a k with
+      | some v => some v
+      | none => objGet? b k := by
+  induction a with
+  | nil => rfl
+  | cons p a ih =>
+    obtain ⟨k', v⟩ := p
+    by_cases hk : k' = k
+    · simp [objGet?, hk]
+    · simp [objGet?, hk, ih]
+
+theorem objGet?_none_of_keys' (a : List (Text × J)) (k : Text) (h : ∀ p ∈ a, p.1 ≠ k) : objGet? a k = none := by
+  induction a with
+  | nil => rfl
+  | cons p a ih =>
+    obtain ⟨k', v⟩ := p
+    have hk : k' ≠ k := h (k', v) (by simp)
+    simp only [objGet?, hk, if_false]
+    exact ih (fun q hq => h q (by simp [hq]))
+
+theorem objGet?_append_none' (a b : List (Text × J)) (k : Text) (h : ∀ p ∈ a, p.1 ≠ k) : objGet? (a ++ b) k = objGet? b k := by
+  rw [objGet?_append', objGet?_none_of_keys' a k h]
+
+theorem objGet?_append_some' (a b : List (Text × J)) (k : Text) (v : J) (h : objGet? a k = some v) : objGet? (a ++ b) k = some v := by
+  rw [objGet?_append', h]
+
+theorem objGet?_isSome_of_key (l : List (Text × J)) (k : Text) (h : k ∈ l.map (·.1)) : (objGet? l k).isSome = true := by
+  induction l with
+  | nil => cases h
+  | cons p l ih =>
+    obtain ⟨k', v'⟩ := p
+    by_cases hk : k' = k
+    · simp [objGet?, hk]
+    · simp only [List.map_cons, List.mem_cons] at h
+      rcases h with h | h
+      · exact absurd h.symm hk
+      · simpa [objGet?, hk] using ih h
+
+/-- what `parsePELSummary` reads from the private header's document -/
+def PhFacts (r : J × PHInfo) : Prop :=
+  ∃ l, r.1 = .obj l ∧ (objGet? l (s "Creator Subsystem")).isSome = true ∧ (objGet? l (s "Created by")).isSome = true
+
+theorem decodePH_facts (T : Tables) (h : SecHdr) (st : Bytes) : Post PhFacts (decodePH T h st) := by
+  unfold decodePH
+  repeat (apply post_bind; intro _ _)
+  apply post_pure
+  refine ⟨_, rfl, ?_, ?_⟩ <;> exact objGet?_isSome_of_key _ _ (by simp [kv])
+
+/-- … and from the user header's -/
+def UhFacts (r : J × UHInfo) : Prop :=
+  ∃ l, r.1 = .obj l ∧ (objGet? l (s "Subsystem")).isSome = true ∧ (objGet? l (s "Event Severity")).isSome = true
+
+theorem decodeUH_facts (T : Tables) (h : SecHdr) (creator : Text) (st : Bytes) : Post UhFacts (decodeUH T h creator st) := by
+  unfold decodeUH
+  repeat (apply post_bind; intro _ _)
+  apply post_pure
+  refine ⟨_, rfl, ?_, ?_⟩ <;> exact objGet?_isSome_of_key _ _ (by simp [kv])
+
+end Pel.TieDM
+
+namespace Pel.TieDM
+variable {σ σ' α β ρ : Type}
+
+theorem post_fail {α : Type} (P : α → Prop) (e : Err) (st : Bytes) : Post P ((Rd.fail e : Rd α) st) := trivial
+
+theorem post_ite {α : Type} (P : α → Prop) (c : Prop) [Decidable c] (x y : Rd α) (st : Bytes)
+    (hx : c → Post P (x st)) (hy : ¬ c → Post P (y st)) : Post P ((if c then x else y) st) := by
+  split
+  · exact hx ‹_›
+  · exact hy ‹_›
+
+/-- the member `Reference Code` of an SRC document stands behind members with other names -/
+theorem base_rc (A B C X : List (Text × J)) (w v : J)
+    (hA : ∀ p ∈ A, p.1 ≠ s "Reference Code") (hB : ∀ p ∈ B, p.1 ≠ s "Reference Code") (hC : ∀ p ∈ C, p.1 ≠ s "Reference Code") :
+    objGet? ((A ++ B ++ C ++ [kv "Valid Word Count" w, kv "Reference Code" v]) ++ X) (s "Reference Code") = some v := by
+  apply objGet?_append_some'
+  rw [List.append_assoc, List.append_assoc, objGet?_append_none' _ _ _ hA, objGet?_append_none' _ _ _ hB, objGet?_append_none' _ _ _ hC]
+  simp [objGet?, kv, (by decide : s "Valid Word Count" ≠ s "Reference Code")]
+
+def SrcFacts (r : J × Text) : Prop := ∃ l, r.1 = .obj l ∧ objGet? l (s "Reference Code") = some (jstr r.2)
+
+theorem post_final (allow : Bool) (det : SrcDetails) (L : List (Text × J)) (rc : Text) (st : Bytes)
+    (hk : ∀ X, objGet? (L ++ X) (s "Reference Code") = some (jstr rc)) :
+    Post SrcFacts ((if allow = true then
+        match det with
+        | .none => pure (.obj L, rc)
+        | .some j => pure (.obj (L ++ [kv "SRC Details" j]), rc)
+        | .fail => Rd.fail .other
+        | .unsupported => Rd.fail .unsupported
+      else pure (.obj L, rc) : Rd (J × Text)) st) := by
+  have h0 : objGet? L (s "Reference Code") = some (jstr rc) := by simpa using hk []
+  split
+  · cases det
+    · exact post_pure _ _ _ ⟨_, rfl, h0⟩
+    · exact post_pure _ _ _ ⟨_, rfl, hk _⟩
+    · exact post_fail _ _ _
+    · exact post_fail _ _ _
+  · exact post_pure _ _ _ ⟨_, rfl, h0⟩
+
+theorem decodeSRC_facts (T : Tables) (env : SrcEnv) (h : SecHdr) (creator : Text) (allow : Bool) (st : Bytes) :
+    Post SrcFacts (decodeSRC T env h creator allow st) := by
+  unfold decodeSRC
+  apply post_bind; intro verB _
+  apply post_bind; intro flags _
+  apply post_bind; intro _ _
+  apply post_bind; intro wordCount _
+  apply post_bind; intro _ _
+  apply post_bind; intro _ _
+  apply post_bind; intro words _
+  apply post_bind; intro ascii st8
+  generalize hed : (if (List.take 2 ascii = s "BD" ∨ List.take 2 ascii = s "11") ∨ List.take 2 ascii = s "BC" then
+      errorDetails env.registry ascii words else ErrDet.none) = ed
+  simp only []
+  have key : ∀ X : List (Text × J), objGet? (([kv "Section Version" (jnum h.ver), kv "Sub-section type" (jnum h.sub),
+        kv "Created by" (jstr (displayCompID T h.comp creator)),
+        kv "SRC Version" (jstr (ox (bytesHexL verB))),
+        kv "SRC Format" (jstr (ox (fmtHex 2 (words.getD 0 0 &&& 255)))),
+        kv "Virtual Progress SRC" (boolStr (flags &&& 128 != 0)),
+        kv "I5/OS Service Event Bit" (boolStr (flags &&& 16 != 0)),
+        kv "Hypervisor Dump Initiated" (boolStr (flags &&& 4 != 0))] ++
+      (if List.take 2 ascii = s "BD" ∨ List.take 2 ascii = s "11" then
+        [kv "Backplane CCIN" (jstr (fmtHex 4 (words.getD 1 0 >>> 16))),
+          kv "Terminate FW Error" (boolStr (words.getD 3 0 &&& 536870912 != 0))]
+      else []) ++
+      (if (List.take 2 ascii = s "BD" ∨ List.take 2 ascii = s "11") ∨ List.take 2 ascii = s "BC" then
+        [kv "Deconfigured" (boolStr (words.getD 3 0 &&& 33554432 != 0)),
+          kv "Guarded" (boolStr (words.getD 3 0 &&& 16777216 != 0))] ++ ed.members
+      else []) ++
+      [kv "Valid Word Count" (jstr (ox (fmtHex 2 wordCount))), kv "Reference Code" (jstr (stripSp ascii))]) ++ X)
+      (s "Reference Code") = some (jstr (stripSp ascii)) := by
+    intro X
+    apply base_rc
+    · intro p hp
+      simp only [List.mem_cons, List.not_mem_nil, or_false] at hp
+      rcases hp with rfl | rfl | rfl | rfl | rfl | rfl | rfl | rfl <;> (show s _ ≠ s "Reference Code"; decide)
+    · intro p hp
+      split at hp
+      · simp only [List.mem_cons, List.not_mem_nil, or_false] at hp
+        rcases hp with rfl | rfl <;> (show s _ ≠ s "Reference Code"; decide)
+      · cases hp
+    · intro p hp
+      split at hp
+      · simp only [List.mem_append, List.mem_cons, List.not_mem_nil, or_false] at hp
+        rcases hp with (rfl | rfl) | hp
+        · show s _ ≠ s "Reference Code"; decide
+        · show s _ ≠ s "Reference Code"; decide
+        · cases ed <;> simp only [ErrDet.members, List.mem_cons, List.not_mem_nil, or_false] at hp
+          subst hp; show s _ ≠ s "Reference Code"; decide
+      · cases hp
+  split
+  · exact post_fail _ _ _
+  · exact post_fail _ _ _
+  · apply post_ite
+    · intro _; exact post_fail _ _ _
+    · intro _
+      apply post_ite
+      · intro _
+        simp only [bind_assoc, pure_bind]
+        apply post_bind; intro c st9
+        apply post_final
+        intro X
+        rw [List.append_assoc, List.append_assoc]
+        exact key _
+      · intro _
+        simp only [pure_bind]
+        apply post_final
+        intro X
+        rw [List.append_assoc]
+        exact key _
+
+end Pel.TieDM
+
+namespace Pel.TieDM
+variable {σ σ' α β ρ : Type}
+
+/-- what the summary loop relies on in the decode of a primary SRC section -/
+def PsFacts (r : J × Option Text) : Prop := ∃ l rc, r.1 = .obj l ∧ r.2 = some rc ∧ objGet? l (s "Reference Code") = some (jstr rc)
+
+theorem decodeSection_ps (env : Env) (creator : Text) (h : SecHdr) (hid : h.id = sidPS) (st : Bytes) :
+    Post PsFacts (decodeSection env creator h st) := by
+  unfold decodeSection
+  rw [if_pos (Or.inl hid)]
+  have hf := decodeSRC_facts env.T env.src h creator env.allowPlugins st
+  rw [rd_bind_apply]
+  cases hr : decodeSRC env.T env.src h creator env.allowPlugins st with
+  | error e => trivial
+  | ok p =>
+    obtain ⟨⟨j, rc⟩, b⟩ := p
+    rw [hr] at hf
+    obtain ⟨l, h1, h2⟩ := hf
+    exact ⟨l, rc, h1, rfl, h2⟩
+
+/-- `summary["SRC"] = …; summary["Message"] = …` -/
+def addSM (d : List (Text × J)) (rc : Option Text) (msg : Option J) : List (Text × J) :=
+  let d1 := match rc with
+    | some r => objSet d (s "SRC") (jstr r)
+    | none => d
+  match msg with
+  | some m => objSet d1 (s "Message") m
+  | none => d1
+
+/-- the two results agree: equal, or both an exception with the same output (the locals no longer matter then) -/
+def StepRel (r r' : PyRes (Ctl ρ) × PySt σ) : Prop :=
+  match r'.1 with
+  | .exc => r.1 = .exc ∧ r.2.out = r'.2.out ∧ r.2.errs = r'.2.errs
+  | _ => r = r'
+
+/-- one iteration of the section loop of `parsePELSummary` on (stream, summary) -/
+def psStep (env : Env) (creator : Text) (st : PySt (Bytes × List (Text × J))) : PyRes (Ctl ρ) × PySt (Bytes × List (Text × J)) :=
+  match parseHeader st.loc.1 with
+  | .error _ => (.exc, st)
+  | .ok (h, b1) =>
+    match decodeSection env creator h b1 with
+    | .error _ => (.exc, st)
+    | .ok ((j, rc), b2) =>
+      if h.id = sidPS then
+        match summaryMessage j b2 with
+        | .error _ => (.exc, st)
+        | .ok (msg, _) => (.ok .brk, { st with loc := (b2, addSM st.loc.2 rc msg) })
+      else (.ok .next, { st with loc := (b2, st.loc.2) })
+
+/-- the whole loop, from the model's `summarySections` -/
+def psLoop (env : Env) (creator : Text) (k : Nat) (st : PySt (Bytes × List (Text × J))) : PyRes (Ctl ρ) × PySt (Bytes × List (Text × J)) :=
+  match summarySections env creator k st.loc.1 with
+  | .error _ => (.exc, st)
+  | .ok ((rc, msg), b') => (.ok .next, { st with loc := (b', addSM st.loc.2 rc msg) })
+
+theorem summaryMessage_rest (j : J) (b : Bytes) (m : Option J) (b' : Bytes) (h : summaryMessage j b = .ok (m, b')) : b' = b := by
+  unfold summaryMessage at h
+  cases hj : jIn (s "Error Details") j with
+  | none => simp [hj, Rd.fail] at h
+  | some t =>
+    cases t with
+    | false =>
+      simp only [hj] at h
+      cases h; rfl
+    | true =>
+      simp only [hj] at h
+      cases hm : (jItem (s "Error Details") j).bind (jItem (s "Message")) with
+      | none => simp [hm, Rd.fail] at h
+      | some m' =>
+        simp only [hm] at h
+        cases h; rfl
+
+theorem sum_loop (env : Env) (creator : Text) (body : Nat → OutM (Bytes × List (Text × J)) (Ctl ρ))
+    (hbody : ∀ i st, StepRel (body i st) (psStep env creator st)) :
+    ∀ (k a : Nat) (st : PySt (Bytes × List (Text × J))), StepRel (forEach (List.range' a k) body st) (psLoop env creator k st) := by
+  intro k
+  induction k with
+  | zero =>
+    intro a st
+    simp only [List.range', forEach_nil, psLoop, summarySections, StepRel]
+    rfl
+  | succ k ih =>
+    intro a st
+    have hb := hbody a st
+    rw [show List.range' a (k + 1) = a :: List.range' (a + 1) k from rfl, forEach_cons]
+    unfold psLoop summarySections
+    unfold psStep at hb
+    rw [rd_bind_apply]
+    cases h1 : parseHeader st.loc.1 with
+    | error e =>
+      simp only [h1, StepRel] at hb ⊢
+      obtain ⟨e1, e2, e3⟩ := hb
+      generalize body a st = r at *
+      obtain ⟨r1, r2⟩ := r
+      cases e1
+      exact ⟨rfl, e2, e3⟩
+    | ok p1 =>
+      obtain ⟨h, b1⟩ := p1
+      simp only [h1] at hb ⊢
+      rw [rd_bind_apply]
+      cases h2 : decodeSection env creator h b1 with
+      | error e =>
+        simp only [h2, StepRel] at hb ⊢
+        obtain ⟨e1, e2, e3⟩ := hb
+        generalize body a st = r at *
+        obtain ⟨r1, r2⟩ := r
+        cases e1
+        exact ⟨rfl, e2, e3⟩
+      | ok p2 =>
+        obtain ⟨⟨j, rc⟩, b2⟩ := p2
+        simp only [h2] at hb ⊢
+        by_cases hid : h.id = sidPS
+        · simp only [hid, if_true] at hb ⊢
+          rw [rd_bind_apply]
+          cases h3 : summaryMessage j b2 with
+          | error e =>
+            simp only [h3, StepRel] at hb ⊢
+            obtain ⟨e1, e2, e3⟩ := hb
+            generalize body a st = r at *
+            obtain ⟨r1, r2⟩ := r
+            cases e1
+            exact ⟨rfl, e2, e3⟩
+          | ok p3 =>
+            obtain ⟨msg, b3⟩ := p3
+            have hb3 := summaryMessage_rest j b2 msg b3 h3
+            subst hb3
+            simp only [h3, StepRel] at hb ⊢
+            rw [hb]
+            rfl
+        · simp only [hid, if_false] at hb ⊢
+          simp only [StepRel] at hb
+          rw [hb]
+          have := ih (a + 1) { st with loc := (b2, st.loc.2) }
+          unfold psLoop at this
+          simp only at this ⊢
+          cases h4 : summarySections env creator k b2 with
+          | error e =>
+            simp only [h4, StepRel] at this ⊢
+            exact this
+          | ok p4 =>
+            obtain ⟨⟨rc', msg'⟩, b4⟩ := p4
+            simp only [h4, StepRel] at this ⊢
+            exact this
+
+end Pel.TieDM
+
+namespace Pel.TieDM
+/-- the names under which `generatePH`, `generateUH` and `sectionFun` store what `parsePELSummary` then reads back with literal keys
+    (true of the live table `sectionNames`, pinned by C01.pin_section_names) -/
+def NamesOk (T : Tables) : Prop :=
+  sectionName T sidPH = s "Private Header" ∧ sectionName T sidUH = s "User Header" ∧ sectionName T sidPS = s "Primary SRC"
+end Pel.TieDM
+
+namespace Pel.TieDM
+/-! the keys `parsePELSummary` uses, as code points (the generated terms carry the literals of the source) -/
+@[pykeys] theorem sl_Primary_SRC : s "Primary SRC" = [80, 114, 105, 109, 97, 114, 121, 32, 83, 82, 67] := by decide
+@[pykeys] theorem sl_Reference_Code : s "Reference Code" = [82, 101, 102, 101, 114, 101, 110, 99, 101, 32, 67, 111, 100, 101] := by decide
+@[pykeys] theorem sl_Error_Details : s "Error Details" = [69, 114, 114, 111, 114, 32, 68, 101, 116, 97, 105, 108, 115] := by decide
+@[pykeys] theorem sl_Message : s "Message" = [77, 101, 115, 115, 97, 103, 101] := by decide
+@[pykeys] theorem sl_SRC : s "SRC" = [83, 82, 67] := by decide
+@[pykeys] theorem sl_PLID : s "PLID" = [80, 76, 73, 68] := by decide
+@[pykeys] theorem sl_CreatorID : s "CreatorID" = [67, 114, 101, 97, 116, 111, 114, 73, 68] := by decide
+@[pykeys] theorem sl_Subsystem : s "Subsystem" = [83, 117, 98, 115, 121, 115, 116, 101, 109] := by decide
+@[pykeys] theorem sl_Commit_Time : s "Commit Time" = [67, 111, 109, 109, 105, 116, 32, 84, 105, 109, 101] := by decide
+@[pykeys] theorem sl_Sev : s "Sev" = [83, 101, 118] := by decide
+@[pykeys] theorem sl_CompID : s "CompID" = [67, 111, 109, 112, 73, 68] := by decide
+@[pykeys] theorem sl_Private_Header : s "Private Header" = [80, 114, 105, 118, 97, 116, 101, 32, 72, 101, 97, 100, 101, 114] := by decide
+@[pykeys] theorem sl_User_Header : s "User Header" = [85, 115, 101, 114, 32, 72, 101, 97, 100, 101, 114] := by decide
+@[pykeys] theorem sl_Creator_Subsystem : s "Creator Subsystem" = [67, 114, 101, 97, 116, 111, 114, 32, 83, 117, 98, 115, 121, 115, 116, 101, 109] := by decide
+@[pykeys] theorem sl_Created_by : s "Created by" = [67, 114, 101, 97, 116, 101, 100, 32, 98, 121] := by decide
+@[pykeys] theorem sl_Event_Severity : s "Event Severity" = [69, 118, 101, 110, 116, 32, 83, 101, 118, 101, 114, 105, 116, 121] := by decide
 end Pel.TieDM
